@@ -9,6 +9,7 @@ from __future__ import annotations
 
 import ast
 
+from ..cfg import deref_at
 from ..astutil import ancestors, calls_in, dotted, enclosing_stmt, is_within, src, walk_local
 from ..cfg import cfg_of
 from ..loader import AnalysisError
@@ -299,7 +300,8 @@ def r6_shared(ctx):
         for c in calls_in(mn.node):
             if (dotted(c.func) or '').endswith('add_key'):
                 sh = next((k.value for k in c.keywords if k.arg == 'shared'), None)
-                ok = sh is not None and 'args.shared' in src(sh) and 'args.clone' in src(sh) and isinstance(sh, ast.BoolOp) and isinstance(sh.op, ast.Or)
+                sh = deref_at(mn.node, sh) if sh is not None else None
+                ok = isinstance(sh, ast.BoolOp) and isinstance(sh.op, ast.Or) and {'shared', 'clone'} <= {v.attr for v in sh.values if isinstance(v, ast.Attribute)}
     ctx.check(ok, 'C07.R2', f'{func_label(mn)}|clone-is-shared', loc(mn, mn.node) if mn else 'replicat/__main__.py', 'CLI add-key: --clone (like --shared) copies the family secrets, so data stored with the original key is found and reused', 'CLI add-key: --clone no longer creates a shared key: the clone gets fresh MAC / chunker / shared secrets and re-uploads everything the original key already stored')
 
 
